@@ -294,10 +294,10 @@ def bsf_wt(bsf):
                 'BSF {} is not in binary form'.format(bsf)
 
         n = bsf.shape[1] // 2
-        x_indices = bsf.indices[bsf.indices < n]
-        z_indices = bsf.indices[bsf.indices >= n] - n
+        rows, cols = bsf.nonzero()
 
-        return len(np.union1d(x_indices, z_indices))
+        # Count the distinct (operator, qubit) pairs, as the dense case does
+        return len(set(zip(rows.tolist(), (cols % n).tolist())))
     else:
         raise TypeError(
             f"bsf matrix should be a numpy array or "
